@@ -151,7 +151,15 @@ impl Head {
         buf: &mut FixedBuf<BUF_SIZE>,
     ) -> Result<Self, HeadError> {
         let head = Self::read_head_bytes(buf)?;
-        let mut lines = head.split(|b| *b == b'\n').map(trim_trailing_cr);
+        // The CR LF that ends the last line is not part of `head`.  A CR at the end of `head` is an extra byte.
+        let num_lines = head.split(|b| *b == b'\n').count();
+        let mut lines = head.split(|b| *b == b'\n').enumerate().map(|(n, line)| {
+            if n + 1 < num_lines {
+                trim_trailing_cr(line)
+            } else {
+                line
+            }
+        });
         let request_line = lines.next().ok_or(HeadError::MissingRequestLine)?;
         let (method, url) = Self::parse_request_line(request_line)?;
         let mut headers = HeaderList::new();
